@@ -97,7 +97,8 @@ class Mon:
             return
         # ---- layout (needs a describable scale)
         sc = "mel" if name == "fbank" else a.get("scaling_function")
-        if not (isinstance(sc, str) and sc in ("mel", "bark")) and not (isinstance(sc, dict) and sc.get("name") in ("linear", "octave", "mel", "bark")):
+        sc = _describe_scale(sc)
+        if not (isinstance(sc, str) and sc in ("mel", "bark", "vfsqrt")) and not (isinstance(sc, dict) and sc.get("name") in ("linear", "octave", "mel", "bark")):
             self.rec.count("layout_unknown_scale")
             return
         if hi is None and rate % 2:
@@ -135,6 +136,21 @@ class Mon:
         elif any(not (sup[i][0] <= got_c[i] <= sup[i][1]) for i in range(len(sup))):
             self.v("%s: a centre lies outside its supports_hz" % name, check="centre_inside", **info)
         self.cfg_of[id(bank)] = cfg
+
+
+def _describe_scale(sc):
+    """a scale handed over as an object is described by its class and its documented public attributes as they read now"""
+    from pydrobert.speech import scales as S
+
+    if type(sc) is S.MelScaling:
+        return "mel"
+    if type(sc) is S.BarkScaling:
+        return "bark"
+    if type(sc) is S.LinearScaling:
+        return {"name": "linear", "low_hz": float(sc.low_hz), "slope_hz": float(sc.slope_hz)}
+    if type(sc) is S.OctaveScaling:
+        return {"name": "octave", "low_hz": float(sc.low_hz)}
+    return sc
 
 
 def _qfit_peak(logH, k):
@@ -302,9 +318,26 @@ def run_case(case, rec, mon=None):
         strict = monitor.strict_settings() if case["idx"] % 6 == 4 else contextlib.nullcontext()
         if case["idx"] % 6 == 4:
             rec.count("banks_built_under_strict_process_settings")
+        build_cfg = cfg
+        sc = cfg.get("scaling_function")
+        if case["idx"] % 8 == 6 and isinstance(sc, dict) and sc.get("name") in ("linear", "octave"):
+            # the scale as an object that has been used with other parameters before: `low_hz` / `slope_hz` are documented public
+            # attributes, assigned here before the bank is built
+            from pydrobert.speech import scales as S
+
+            if sc["name"] == "octave":
+                obj = S.OctaveScaling(3 * sc["low_hz"] + 1)
+            else:
+                obj = S.LinearScaling(sc["low_hz"] + 10.0, 2 * sc.get("slope_hz", 1.0))
+            obj.scale_to_hertz(obj.hertz_to_scale(1000.0))
+            obj.low_hz = sc["low_hz"]
+            if sc["name"] == "linear":
+                obj.slope_hz = sc.get("slope_hz", 1.0)
+            build_cfg = dict(cfg, scaling_function=obj)
+            rec.count("banks_built_on_a_scale_object_retuned_after_use")
         try:
             with strict:
-                bank = gen.build_bank(cfg)
+                bank = gen.build_bank(build_cfg)
         except Exception as e:
             # the generator only produces ranges and flags the documentation allows: such a bank exists
             rec.count("bank_construction_raised")
